@@ -6,6 +6,7 @@ package main
 import (
 	"context"
 	"fmt"
+	"io"
 	"runtime"
 	"strings"
 	"time"
@@ -14,7 +15,7 @@ import (
 )
 
 type encCase struct {
-	line string // the ENC line of this record as sent to the model
+	line    string // the ENC line of this record as sent to the model
 	format  string
 	lvl     int
 	ts      time.Time
@@ -119,6 +120,30 @@ func encRun(r *run, prop string, c *encCase) {
 		strings.Join(attrsTokens(c.attrs), " "))
 	c.line = strings.TrimRight(line, " ")
 	r.emit(c.line, obs)
+}
+
+// encVS is a user-supplied value stringer; encStringerNoise formats one record of a logger that has one (the
+// record itself is not judged): what such a logger brings along stays with it.
+type encVS struct{ w io.Writer }
+
+func (v *encVS) SetWriter(w io.Writer) { v.w = w }
+func (v *encVS) WriteValue(value any) {
+	if v.w != nil {
+		fmt.Fprintf(v.w, "%v", value)
+	}
+}
+
+func encStringerNoise(format string) {
+	rec := &recorder{}
+	l := slog.New("with-value-stringer").SetWriter(rec).SetErrorWriter(rec).SetLevel(slog.TraceLevel)
+	switch format {
+	case "j":
+		l.SetJSONMode(true)
+	case "l":
+		l.SetColorMode(false)
+	}
+	l.SetValueStringer(&encVS{})
+	l.Info("a record of a logger with a value stringer of its own", "k", "v w\nx=1", "g", slog.NewGroupedAttr("in", slog.NewAttr("a", 1)))
 }
 
 // chattyW logs a record of its own from inside Write.
